@@ -14,7 +14,7 @@ RULE = ('one case = one scripted peer audited under 7 option sets (colour, -n, -
         '(refused, silent, closed after banner, garbage, truncated KEXINIT, wrong first packet, bad block size), and policy audits (-P) of passing and failing peers.  Oracle: status == 3/2/0 by the '
         'worst finding level visible in the report (algorithm notes by tag, general/security lines by colour); broken handshakes: status not in {0,2,3} and no algorithm lines/lists; policy: status 0 <=> passed, 3 <=> failed.  '
         'A case is non-trivial when at least one option set produced a report/verdict that was compared with the status; distinct = distinct peer specifications')
-REQUIRED = {'status_checks': 200, 'expect3': 10, 'expect2': 5, 'expect0': 3, 'broken_handshakes': 10, 'policy_runs': 10}
+REQUIRED = {'builtin_policy_runs': 10, 'outdated_builtin_policy_runs': 4, 'status_checks': 200, 'expect3': 10, 'expect2': 5, 'expect0': 3, 'broken_handshakes': 10, 'policy_runs': 10}
 ASSUMPTIONS = ['findings are algorithm notes plus failure/warning coloured lines of the general and security sections; (nfo), (rec) and (fin) lines are presentation, not findings',
                'levels of untagged (gen)/(sec) lines are only observable in colour renderings; the expected status of all option sets of a peer is derived from its colour rendering']
 MANIFEST = {
@@ -52,6 +52,13 @@ def cases(tier, seed):
             cs.append({'kind': 'broken', 'how': b, 'seed': rng.randrange(1 << 30)})
     for i in range(16 if tier == 'quick' else 240):
         cs.append({'kind': 'policy', 'seed': rng.randrange(1 << 30), 'drift': i % 2 == 1, 'json': i % 4 >= 2})
+    from ssh_audit.builtin_policies import BUILTIN_POLICIES
+    pols = [n for n, p_ in BUILTIN_POLICIES.items() if p_['server_policy']]
+    outdated = [n for n in pols if n.replace('(version %s)' % BUILTIN_POLICIES[n]['version'], '(version %d)' % (int(BUILTIN_POLICIES[n]['version']) + 1)) in BUILTIN_POLICIES]
+    chosen = outdated + [n for n in pols if n not in outdated][:: (6 if tier == 'quick' else 1)]
+    for i, n in enumerate(chosen):
+        for drift in (False, True):
+            cs.append({'kind': 'builtin-policy', 'policy': n, 'drift': drift, 'json': (i + drift) % 2 == 0, 'outdated': n in outdated})
     return cs
 
 
@@ -297,8 +304,32 @@ def run_policy(c):
     return viol, counters
 
 
+def run_builtin_policy(c):
+    from ssh_audit.builtin_policies import BUILTIN_POLICIES
+    from props import c17
+    script = c17.synth_script(BUILTIN_POLICIES[c['policy']], False)
+    if c['drift']:
+        script['kex']['enc_sc'] = script['kex']['enc_sc'] + ['3des-cbc']
+        script['kex']['enc_cs'] = script['kex']['enc_cs'] + ['3des-cbc']
+    r, p = audit.audit_server(script, ['-P', c['policy']] + (['-j'] if c['json'] else ['-n']))
+    viol, counters = [], {'policy_runs': 1, 'status_checks': 1, 'builtin_policy_runs': 1, 'outdated_builtin_policy_runs': 1 if c['outdated'] else 0}
+    verdict = None
+    if c['json']:
+        try:
+            verdict = 'passed' if json.loads(r.out)['passed'] else 'failed'
+        except (ValueError, KeyError):
+            pass
+    else:
+        verdict = report.parse_policy_text(r.out)['result']
+    if verdict not in ('passed', 'failed'):
+        viol.append(_v('C02/policy-no-verdict', 'policy audit printed no verdict', out=r.out[-300:], status=r.status))
+    elif (verdict == 'passed') != (r.status == 0) or (verdict == 'failed') != (r.status == 3):
+        viol.append(_v('C02/policy-status-vs-verdict:%s:%s%s' % (verdict, r.status, ':outdated-builtin' if c['outdated'] else ''), 'policy audit exit status does not match its verdict', verdict=verdict, status=r.status, policy=c['policy']))
+    return viol, counters
+
+
 def run_case(c):
-    fn = {'mix': run_mix, 'ssh1': run_ssh1, 'ssh199': run_ssh199, 'nonascii-banner': run_nonascii, 'broken': run_broken, 'policy': run_policy}[c['kind']]
+    fn = {'builtin-policy': run_builtin_policy, 'mix': run_mix, 'ssh1': run_ssh1, 'ssh199': run_ssh199, 'nonascii-banner': run_nonascii, 'broken': run_broken, 'policy': run_policy}[c['kind']]
     viol, counters = fn(c)
     if viol is None:
         return {'verdict': 'inconclusive', 'why': counters.get('why')}
